@@ -92,8 +92,15 @@ def main():
         if not kc[1]:
             broken.append({"file": "runner/driver.ml", "theorem": "kernel cross-check of the extracted runner", "message": kc[2]})
     if hasattr(pmod, "extra_checks"):
-        for v in pmod.extra_checks(tier, seed, stats, broken):
-            stats.violations.append(v)
+        try:
+            for v in pmod.extra_checks(tier, seed, stats, broken):
+                stats.violations.append(v)
+        except gen_tables.TranslatorError as e:
+            if not any(b.get("theorem") == "translator(" + e.table + ")" for b in broken):
+                broken.append({"file": "harness/gen_tables.py", "theorem": "translator(" + e.table + ")", "message": str(e)})
+    for name, msg in sorted(gen_tables.STALE.items()):
+        notes.append(f"table {name}: the live source is no longer recognised by the translator ({msg}); generators and model ran on "
+                     "the snapshot of the last successful translation while searching for a failing input")
 
     # known findings: deliberate stream
     known = [f for f in core.load_known() if f.get("status") == "known" and pid in (f.get("properties") or [f.get("property")])]
